@@ -13,6 +13,7 @@ package main
 
 import (
 	"bufio"
+	"encoding/base64"
 	"fmt"
 	"io"
 	"net"
@@ -92,6 +93,7 @@ allowPorts = [{start=23900,end=23999}]
 			raceCase(c)
 		}
 	})
+	run.ParallelRange(100000, run.N(24, 160), 8, handoffCase)
 	srv.Close()
 	srvAuto.Close()
 	run.Finish(30)
@@ -115,6 +117,10 @@ type group struct {
 	domain string
 	port   int // requested port (0 for tcp-auto)
 	real   int // port reported by the server (tcp kinds)
+	// http / tcpmux endpoint parameters beyond the domain: route restricted to an HTTP user and / or protected by credentials
+	routeUser string
+	authUser  string
+	authPass  string
 }
 
 // S is the server this group lives on.
@@ -144,6 +150,18 @@ func newGroup(c *h.Case, kind string) *group {
 	if kind == "tcp-fixed" {
 		g.port = pickPort()
 	}
+	if kind == "http" || kind == "tcpmux" {
+		switch c.Rng.Intn(4) {
+		case 1: // route restricted to an http user
+			g.routeUser = fmt.Sprintf("ru%d", c.Idx)
+		case 2: // password protected
+			g.authUser, g.authPass = fmt.Sprintf("hu%d", c.Idx), "pw"
+		case 3: // both (the same user name: the request's user selects the route and carries the credentials)
+			g.routeUser = fmt.Sprintf("u%d", c.Idx)
+			g.authUser, g.authPass = g.routeUser, "pw"
+		}
+	}
+	c.Data["group_variant"] = map[string]string{"routeByHTTPUser": g.routeUser, "httpUser": g.authUser}
 	return g
 }
 
@@ -184,6 +202,7 @@ func (g *group) newProxyMsg(pname, key string, diffEndpoint bool) *msg.NewProxy 
 	case "http":
 		m.ProxyType = "http"
 		m.CustomDomains = []string{g.domain}
+		m.RouteByHTTPUser, m.HTTPUser, m.HTTPPwd = g.routeUser, g.authUser, g.authPass
 		if diffEndpoint {
 			m.Locations = []string{"/other"}
 		}
@@ -191,6 +210,7 @@ func (g *group) newProxyMsg(pname, key string, diffEndpoint bool) *msg.NewProxy 
 		m.ProxyType = "tcpmux"
 		m.Multiplexer = "httpconnect"
 		m.CustomDomains = []string{g.domain}
+		m.RouteByHTTPUser, m.HTTPUser, m.HTTPPwd = g.routeUser, g.authUser, g.authPass
 		if diffEndpoint {
 			m.CustomDomains = []string{"x" + g.domain}
 		}
@@ -252,13 +272,16 @@ func (g *group) probe() (who string, refused bool, err error) {
 		id, ierr := h.AskIdentOn(c, 15*time.Second)
 		return id, false, ierr
 	case "http":
-		raw := fmt.Sprintf("GET /p HTTP/1.1\r\nHost: %s\r\nConnection: close\r\n\r\n", g.domain)
+		raw := fmt.Sprintf("GET /p HTTP/1.1\r\nHost: %s\r\n%sConnection: close\r\n\r\n", g.domain, g.authHeader("Authorization"))
 		resp, body, rerr := h.RawHTTP(fmt.Sprintf("127.0.0.1:%d", httpPort), []byte(raw), 15*time.Second)
 		if rerr != nil {
 			return "", false, rerr
 		}
 		if resp.StatusCode == 404 {
 			return "", true, nil
+		}
+		if resp.StatusCode == 401 {
+			return "", false, fmt.Errorf("401 challenge: a protected route for %s exists", g.domain)
 		}
 		if resp.StatusCode != 200 {
 			return "", false, fmt.Errorf("status %d", resp.StatusCode)
@@ -271,7 +294,7 @@ func (g *group) probe() (who string, refused bool, err error) {
 		}
 		defer c.Close()
 		_ = c.SetDeadline(time.Now().Add(15 * time.Second))
-		fmt.Fprintf(c, "CONNECT %s:80 HTTP/1.1\r\nHost: %s:80\r\n\r\n", g.domain, g.domain)
+		fmt.Fprintf(c, "CONNECT %s:80 HTTP/1.1\r\nHost: %s:80\r\n%s\r\n", g.domain, g.domain, g.authHeader("Proxy-Authorization"))
 		br := bufio.NewReader(c)
 		resp, rerr := http.ReadResponse(br, &http.Request{Method: "CONNECT"})
 		if rerr != nil {
@@ -286,6 +309,33 @@ func (g *group) probe() (who string, refused bool, err error) {
 		}{br, c}, 15*time.Second)
 		return id, false, ierr
 	}
+}
+
+// authHeader returns the header line a user of this group must present ("" for an open, unrestricted group).
+func (g *group) authHeader(name string) string {
+	user, pass := g.authUser, g.authPass
+	if user == "" {
+		user = g.routeUser
+	}
+	if user == "" {
+		return ""
+	}
+	return name + ": Basic " + base64.StdEncoding.EncodeToString([]byte(user+":"+pass)) + "\r\n"
+}
+
+// routeRegistered reports whether the server's route table still lists this group's endpoint (http / tcpmux).
+func (g *group) routeRegistered() bool {
+	s := g.S().Snapshot()
+	routes := s.HTTPRoutes
+	if g.kind == "tcpmux" {
+		routes = s.TCPMuxRoutes
+	}
+	for _, r := range routes {
+		if r.Domain == g.domain {
+			return true
+		}
+	}
+	return false
 }
 
 // snapshotMembers returns the member count (tcp, tcpmux) or names (http) the server accounts for this group.
@@ -318,6 +368,9 @@ func (g *group) ledger(when string, live []*member) {
 		if !gone {
 			who, _, err := g.probe()
 			c.Violation("group-endpoint-outlives-last-member", "%s %s: endpoint still answers (%q, err %v) with zero members", g.kind, when, who, err)
+		}
+		if (g.kind == "http" || g.kind == "tcpmux") && g.routeRegistered() {
+			c.Violation("group-route-outlives-last-member", "%s %s: the route table still lists %s (routeByHTTPUser %q, httpUser %q) with zero members", g.kind, when, g.domain, g.routeUser, g.authUser)
 		}
 		if g.kind == "tcp-fixed" || g.kind == "tcp-auto" {
 			if g.real != 0 {
@@ -673,4 +726,66 @@ func raceCase(c *h.Case) {
 	if c.Idx%50 == 0 {
 		run.Sample(map[string]any{"kind": kind, "joiner_parked_before_last_leave": joinerFirst, "join_accepted": joinResp.Error == ""})
 	}
+}
+
+// ---------------------------------------------------------------------------------------------
+// 4. a user connection taken by the group worker but not yet handed to a member while the last member leaves
+
+func handoffCase(c *h.Case) {
+	kind := []string{"tcp-fixed", "tcpmux"}[c.Idx%2]
+	g := newGroup(c, kind)
+	g.routeUser, g.authUser, g.authPass = "", "", ""
+	a, err := dialMember(g, 1)
+	if err != nil {
+		run.Inconclusive("member login failed")
+		return
+	}
+	defer a.peer.Close()
+	if resp, err := g.join(a, g.key, false); err != nil || resp.Error != "" {
+		c.Violation("group-join-with-right-key-refused", "%s: first member refused: %v %+v", kind, err, resp)
+		return
+	}
+	point := map[string]string{"tcp-fixed": "server.group.tcp.worker.beforeHandoff", "tcpmux": "server.group.tcpmux.worker.beforeHandoff"}[kind]
+	gate := h.NewGate(point, g.name, 1)
+	defer gate.Release()
+	var uc net.Conn
+	if kind == "tcp-fixed" {
+		uc, err = net.DialTimeout("tcp", fmt.Sprintf("127.0.0.1:%d", g.real), 5*time.Second)
+	} else {
+		uc, err = net.DialTimeout("tcp", fmt.Sprintf("127.0.0.1:%d", muxPort), 5*time.Second)
+		if err == nil {
+			fmt.Fprintf(uc, "CONNECT %s:80 HTTP/1.1\r\nHost: %s:80\r\n\r\n", g.domain, g.domain)
+		}
+	}
+	if err != nil {
+		run.Inconclusive("user dial failed")
+		return
+	}
+	defer uc.Close()
+	if !gate.WaitArrived(10 * time.Second) {
+		run.Inconclusive("beforeHandoff gate not reached")
+		return
+	}
+	// the last member leaves while the connection sits between the worker's accept and the hand-off
+	if err := g.leave(a); err != nil {
+		run.Inconclusive("leave barrier missing")
+		return
+	}
+	gate.Release()
+	run.Count("handoff_parked_during_last_leave_"+kind, 1)
+	// the server must survive (a crash ends this process: the wrapper reports it), the group must be gone and re-creatable
+	g.ledger("after last leave with a connection parked before the hand-off", nil)
+	b, err := dialMember(g, 2)
+	if err != nil {
+		c.Violation("server-not-serving-after-handoff-race", "%s: no login possible after the last leave raced with a hand-off: %v", kind, err)
+		return
+	}
+	defer b.peer.Close()
+	if resp, err := g.join(b, g.key, false); err != nil || resp.Error != "" {
+		c.Violation("group-not-recreatable-after-last-leave", "%s: join after the last leave raced with a hand-off failed: %v %+v", kind, err, resp)
+		return
+	}
+	g.ledger("after re-creation", []*member{b})
+	_ = g.leave(b)
+	run.Distinct(fmt.Sprintf("handoff|%s|%d", kind, c.Idx%16))
 }
